@@ -143,14 +143,17 @@ def known_finding_decls():
     P = "K0"
     out.append(dict(name="Init" + P, prefix=P, ret="*K0T0", kind="valid", layout=[0, 1, 2], meta=dict(n=3, nargs=0, nf=0, structnode=None, second=[], binds=[], values=[]),
                     provs=[fn(P, 0, ["*K0T1", "*K0T2"], False, False), fn(P, 1, [], True, True), fn(P, 2, [], True, True)], kf="KF-C06-1"))
-    # KF-C07-1: no error result; goroutine B(d) waits for main's D with a ctx-aware select; main then waits plainly for b
+    # KF-C07-1: no error result; R(s, x, z) and S sync, X async on the main thread; goroutine [Y(s), Z(y)] waits for main's S with a
+    # ctx-aware select; main then waits plainly for z
     P = "K1"
-    out.append(dict(name="Init" + P, prefix=P, ret="*K1T0", kind="valid", layout=[0, 1, 2, 3], meta=dict(n=4, nargs=0, nf=0, structnode=None, second=[], binds=[], values=[]),
-                    provs=[fn(P, 0, ["*K1T1", "*K1T2"], False, False), fn(P, 1, [], False, True), fn(P, 2, ["*K1T3"], False, True), fn(P, 3, [], False, False)], kf="KF-C07-1"))
-    # KF-C07-2: no error result; the requested value is produced by a goroutine that leaves through its ctx branch
+    out.append(dict(name="Init" + P, prefix=P, ret="*K1T0", kind="valid", layout=[0, 1, 2, 3, 4], meta=dict(n=5, nargs=0, nf=0, structnode=None, second=[], binds=[], values=[]),
+                    provs=[fn(P, 0, ["*K1T1", "*K1T2", "*K1T4"], False, False), fn(P, 1, [], False, False), fn(P, 2, [], False, True),
+                           fn(P, 3, ["*K1T1"], False, True), fn(P, 4, ["*K1T3"], False, True)], kf="KF-C07-1"))
+    # KF-C07-2: no error result; A sync; X(a), Y(a) async; R(x, y) lands in the goroutine with Y: the requested value is produced by a
+    # goroutine that leaves through its ctx branch
     P = "K2"
-    out.append(dict(name="Init" + P, prefix=P, ret="*K2T0", kind="valid", layout=[0, 1, 2], meta=dict(n=3, nargs=0, nf=0, structnode=None, second=[], binds=[], values=[]),
-                    provs=[fn(P, 0, ["*K2T1", "*K2T2"], False, True), fn(P, 1, [], False, False), fn(P, 2, [], False, True)], kf="KF-C07-2"))
+    out.append(dict(name="Init" + P, prefix=P, ret="*K2T0", kind="valid", layout=[0, 1, 2, 3], meta=dict(n=4, nargs=0, nf=0, structnode=None, second=[], binds=[], values=[]),
+                    provs=[fn(P, 0, ["*K2T1", "*K2T2"], False, False), fn(P, 1, ["*K2T3"], False, True), fn(P, 2, ["*K2T3"], False, True), fn(P, 3, [], False, False)], kf="KF-C07-2"))
     # KF-C08-1: X sync fallible on the main thread; Y(x), A(x) async; Z(a, y); X fails
     P = "K3"
     out.append(dict(name="Init" + P, prefix=P, ret="*K3T0", kind="valid", layout=[0, 1, 2, 3], meta=dict(n=4, nargs=0, nf=0, structnode=None, second=[], binds=[], values=[]),
